@@ -108,4 +108,21 @@ def cases():
     out.append((dlbase([{"name": "v", "download": git, "sources": ["v.c"]}], [{"name": "app", "sources": ["main.c"], "depends": ["v"]}], rules=[]), {}))
     out.append((dlbase([{"name": "v", "download": dict(git, patches=["p.patch"]), "sources": ["v.c"]}], [{"name": "app", "sources": ["main.c"], "depends": ["v"]}], rules=DL[:1]), {}))
     out.append((dlbase([{"name": "v", "download": {"git": {"url": "u", "branch": "main"}}, "sources": ["v.c"]}], [{"name": "app", "sources": ["main.c"], "depends": ["v"]}]), {}))
+    # 19: allow/block lists from defaults: are extended by the app's own lists
+    ctxs = [{"name": "arm"}, {"name": "riscv"}, {"name": "host"}]
+    blds = [{"name": "board-a", "parent": "arm"}, {"name": "board-c", "parent": "riscv"}, {"name": "native", "parent": "host"}]
+    for dflt, own in (({"blocklist": ["riscv"]}, {"blocklist": ["host"]}), ({"allowlist": ["arm"]}, {"allowlist": ["host"]}),
+                      ({"blocklist": ["riscv"], "allowlist": ["arm"]}, {"blocklist": ["board-a"], "allowlist": ["riscv"]}),
+                      ({"blocklist": ["riscv"]}, {"allowlist": ["board-c"]})):
+        out.append((base([], [dict({"name": "app-big", "sources": ["big.c"]}, **own), {"name": "app-plain", "sources": ["p.c"]}],
+                         contexts=ctxs, builders=blds, defaults={"app": dflt, "module": dflt}), {}))
+    # 20: var_options set on a context without any env (a pure "style" context) reach its descendants
+    f = {"laze-project.yml": [{"contexts": [{"name": "default", "rules": RULES},
+                                            {"name": "style", "var_options": {"CFLAGS": {"prefix": "-D", "joiner": " "}, "LIBS": {"start": "[", "end": "]", "joiner": ":", "prefix": "-l"}}},
+                                            {"name": "style2", "parent": "style"}],
+                               "builders": [{"name": "b0", "parent": "style", "env": {"bindir": "${build-dir}/${builder}/${app}", "CFLAGS": ["FOO", "", "BAR=1"], "LIBS": ["m", "c"]}},
+                                            {"name": "b1", "parent": "style2", "env": {"bindir": "${build-dir}/${builder}/${app}", "CFLAGS": ["X"], "LIBS": ["z"]}},
+                                            {"name": "b2", "parent": "style", "var_options": {"CFLAGS": {"suffix": ";"}}, "env": {"bindir": "${build-dir}/${builder}/${app}", "CFLAGS": ["own"], "LIBS": ["q", "r"]}}],
+                               "apps": [{"name": "app", "sources": ["main.c"]}]}]}
+    out.append((f, {}))
     return out
